@@ -153,6 +153,7 @@ pub fn instruction(i: &Instruction) -> String {
         PopRet => "(PopRet)".into(),
         BeginCollectArguments => "(BeginCollectArguments)".into(),
         PushNamed(p) => format!("(PushNamed {})", parameter(p)),
+        PushNamedByRef(p) => format!("(PushNamedByRef {})", parameter(p)),
         PushUnnamedByVal => "(PushUnnamedByVal)".into(),
         PushUnnamedByRef => "(PushUnnamedByRef)".into(),
         PushStack => "(PushStack)".into(),
@@ -160,6 +161,7 @@ pub fn instruction(i: &Instruction) -> String {
         PopStack => "(PopStack)".into(),
         EnqueueToReturnStack(k) => format!("(EnqueueToReturnStack {})", k),
         DequeueFromReturnStack => "(DequeueFromReturnStack)".into(),
+        DequeueFromReturnStackWithPath => "(DequeueFromReturnStackWithPath)".into(),
         StashFunctionReturnValue(n) => format!("(StashFunctionReturnValue {})", name(n)),
         UnStashFunctionReturnValue => "(UnStashFunctionReturnValue)".into(),
         Throw(e) => format!("(Throw {})", s(&format!("{:?}", e))),
